@@ -656,6 +656,181 @@ def part_pairs(job):
     return p
 
 
+# ---- exact rotations: the 24 rotations of the cube (signed permutation matrices) and exact quaternions -------------------
+
+def cube_rotations():
+    import itertools
+    out = []
+    for perm in itertools.permutations(range(3)):
+        for signs in itertools.product((1.0, -1.0), repeat=3):
+            M = np.zeros((3, 3))
+            for r in range(3):
+                M[r, perm[r]] = signs[r]
+            if abs(np.linalg.det(M) - 1.0) < 1e-12:
+                out.append(M)
+    return out
+
+
+EXACT_QUATS = ((0.0, 0.0, 0.0, 1.0), (1.0, 0.0, 0.0, 0.0), (0.0, 1.0, 0.0, 0.0), (0.0, 0.0, 1.0, 0.0),
+               (0.6, 0.8, 0.0, 0.0), (0.0, 0.6, 0.8, 0.0), (0.8, 0.0, -0.6, 0.0), (0.0, 0.0, 0.0, -1.0),
+               (0.5, 0.5, 0.5, 0.5), (0.5, -0.5, 0.5, -0.5), (0.0, 2.0, 0.0, 0.0), (0.6, 0.0, 0.0, 0.8),
+               (0.6, 0.0, 0.0, -0.8))
+
+
+def _mat_class(R):
+    tr = float(np.trace(R))
+    return 'identity' if tr > 3 - 1e-9 else 'half_turn' if abs(tr + 1.0) < 1e-9 else 'generic'
+
+
+def check_exact(p, how, src, t):
+    """Views of a pose given by an exact matrix / quaternion (scalar part exactly zero for half turns)."""
+    from cflib.localization.lighthouse_types import Pose
+    rp = {'part': 'exact', 'how': how, 'src': np.asarray(src, dtype=float).tolist(), 't': list(t)}
+    if how == 'matrix':
+        R = np.asarray(src, dtype=float)
+        P = Pose(R_matrix=R, t_vec=t)
+    elif how == 'product':
+        A, B = src
+        R = np.asarray(A, dtype=float) @ np.asarray(B, dtype=float)
+        P = Pose(R_matrix=A, t_vec=t).rotate_translate_pose(Pose(R_matrix=B))
+        rp['src'] = [np.asarray(A).tolist(), np.asarray(B).tolist()]
+    else:
+        q = np.asarray(src, dtype=float)
+        R = quat_to_matrix(q / math.sqrt(float(q @ q)))
+        P = Pose.from_quat(R_quat=src, t_vec=t)
+    cls = _mat_class(R)
+    desc = 'pose from %s %r' % (how, rp['src'])
+    Rm = np.asarray(P.rot_matrix, dtype=float)
+    p.chk('exact:rot_matrix', cls, np.max(np.abs(Rm - R)), POSE_TOL, lambda: desc + ': rot_matrix %r' % (Rm,), rp)
+    try:
+        q = np.asarray(P.rot_quat, dtype=float)
+        ok = q.shape == (4,) and float(q @ q) > 0
+        err = float(np.max(np.abs(quat_to_matrix(q / math.sqrt(float(q @ q))) - R))) if ok else float('nan')
+        unit = abs(math.sqrt(float(q @ q)) - 1.0) if ok else float('nan')
+    except Exception as e:  # noqa
+        q, err, unit = repr(e), float('nan'), float('nan')
+    if VERBOSE:
+        print('  rot_quat = %r' % (q,))
+    p.chk('exact:rot_quat', cls, err, POSE_TOL, lambda: desc + ': rot_quat view %r is not this rotation' % (q,), rp)
+    p.chk('exact:rot_quat_unit', cls, unit, POSE_TOL, lambda: desc + ': rot_quat view %r is not a unit quaternion' % (q,), rp)
+    try:
+        back = Pose.from_quat(R_quat=P.rot_quat, t_vec=t)
+        err = float(np.max(np.abs(np.asarray(back.rot_matrix, dtype=float) - R)))
+    except Exception as e:  # noqa
+        err = float('nan')
+        if VERBOSE:
+            print('  from_quat(rot_quat) raised %r' % (e,))
+    p.chk('exact:quat_round_trip', cls, err, POSE_TOL, lambda: desc + ': Pose.from_quat(pose.rot_quat) is another rotation', rp)
+    try:
+        rvv = np.asarray(P.rot_vec, dtype=float)
+        err = float(np.max(np.abs(rodrigues(rvv) - R))) if rvv.shape == (3,) else float('nan')
+    except Exception as e:  # noqa
+        rvv, err = repr(e), float('nan')
+    p.chk('exact:rot_vec', cls, err, POSE_TOL, lambda: desc + ': rot_vec view %r is another rotation' % (rvv,), rp)
+    try:
+        back = Pose.from_rot_vec(R_vec=P.rot_vec, t_vec=t)
+        err = float(np.max(np.abs(np.asarray(back.rot_matrix, dtype=float) - R)))
+    except Exception:  # noqa
+        err = float('nan')
+    p.chk('exact:rot_vec_round_trip', cls, err, POSE_TOL, lambda: desc + ': Pose.from_rot_vec(pose.rot_vec) is another rotation', rp)
+    return cls
+
+
+def part_exact(_):
+    p = Part()
+    cube = cube_rotations()
+    for t in TRANSLATIONS[:1] + TRANSLATIONS[4:5]:
+        for M in cube:
+            p.case(key=('exact', 'matrix', M.tobytes(), t), outcome=check_exact(p, 'matrix', M, t))
+        for A in cube:
+            for B in cube:
+                p.case(key=('exact', 'product', A.tobytes(), B.tobytes(), t), outcome=check_exact(p, 'product', (A, B), t))
+        for q in EXACT_QUATS:
+            p.case(key=('exact', 'quat', q, t), outcome=check_exact(p, 'quat', q, t))
+    return p
+
+
+# ---- histories of operations on one Pose object ----------------------------------------------------------------------------
+
+HIST_OPS = ('fwd', 'inv', 'fwdpose', 'invpose', 'views', 'scale2', 'scale_half', 'copy')
+HIST_POSES = (((0.0, 0.0, 0.0), (1.0, 2.0, 3.0)), ((0.3, -1.1, 0.7), (0.4, -1.7, 2.2)), ((0.0, 0.0, PI), (-3.0, 3.0, -3.0)),
+              ((0.0, 0.0, 1e-9), (0.0, 0.0, 1.0)))
+
+
+def check_history(p, rv, t, ops):
+    """A sequence of uses of one Pose object (transformations, views, Pose.scale, copy.copy): after every step the object
+    still is the rigid motion (R, current t) - inverse undoes forward, both agree with the homogeneous matrix."""
+    import copy
+    rp = {'part': 'history', 'rv': list(rv), 't': list(t), 'ops': list(ops)}
+    cls = rot_class(rv)
+    P = _pose(rv, t)
+    R = rodrigues(rv)
+    tcur = np.array(t, dtype=float)
+    other = _pose((0.2, 0.1, -0.4), (0.5, 0.25, -1.0))
+    Ho = hom(rodrigues((0.2, 0.1, -0.4)), (0.5, 0.25, -1.0))
+    x = np.array((0.3, -0.2, 0.9))
+    originals = []
+    for step, op in enumerate(ops + ('final',)):
+        if op in ('scale2', 'scale_half'):
+            if not hasattr(P, 'scale'):
+                p.cap('Pose.scale not present')
+                continue
+            f = 2.0 if op == 'scale2' else 0.5
+            P.scale(f)
+            tcur = tcur * f
+        elif op == 'copy':
+            originals.append((P, tcur.copy()))
+            P = copy.copy(P)
+        elif op == 'views':
+            P.rot_vec, P.rot_quat, P.matrix_vec
+        H = hom(R, tcur)
+        Hi = np.linalg.inv(H)
+        tol = POSE_TOL * _mag(tcur, x) * 4
+        tag = ':after_' + '+'.join(ops[:step + 1][-2:]) if step < len(ops) else ':final'
+        desc = 'pose rv=%r t=%r after %r' % (rv, t, ops[:step + 1])
+        for obj, tt, who in [(P, tcur, 'object')] + [(o, ot, 'copied_original') for o, ot in originals]:
+            Hx = hom(R, tt)
+            Hxi = np.linalg.inv(Hx)
+            y = np.asarray(obj.rotate_translate(x), dtype=float)
+            z = np.asarray(obj.inv_rotate_translate(x), dtype=float)
+            C = obj.rotate_translate_pose(other)
+            D = obj.inv_rotate_translate_pose(other)
+            HC, HD = Hx @ Ho, Hxi @ Ho
+            errs = {
+                'forward_ref': np.max(np.abs(y - (Hx @ np.append(x, 1.0))[:3])),
+                'inverse_ref': np.max(np.abs(z - (Hxi @ np.append(x, 1.0))[:3])),
+                'inverse_undoes_forward': np.max(np.abs(np.asarray(obj.inv_rotate_translate(y), dtype=float) - x)),
+                'compose_ref': _pose_err(C, HC[:3, :3], HC[:3, 3]),
+                'inverse_compose_ref': _pose_err(D, HD[:3, :3], HD[:3, 3]),
+                'inverse_undoes_compose': _pose_err(obj.inv_rotate_translate_pose(C), Ho[:3, :3], Ho[:3, 3]),
+                'translation': np.max(np.abs(np.asarray(obj.translation, dtype=float) - tt)),
+            }
+            for name, err in errs.items():
+                p.chk('history:%s:%s' % (who, name), cls + (tag if who == 'object' else ''), err, tol,
+                      lambda: '%s (%s): %s off by %r' % (desc, who, name, err), rp)
+    return cls
+
+
+def history_sequences(depth):
+    import itertools
+    out = []
+    for d in range(1, depth + 1):
+        out += list(itertools.product(HIST_OPS, repeat=d))
+    return out
+
+
+def part_history(job):
+    depth, shard, nsh = job
+    p = Part()
+    for i, ops in enumerate(history_sequences(depth)):
+        if i % nsh != shard:
+            continue
+        for rv, t in HIST_POSES:
+            p.case(key=('history', rv, t, ops), outcome=(check_history(p, rv, t, ops), ops.count('copy') > 0,
+                                                         any(o.startswith('scale') for o in ops)))
+    return p
+
+
 def check_triple(p, A, B, C):
     cls = most_special(A[0], B[0], C[0])
     rp = {'part': 'triple', 'poses': [[list(x[0]), list(x[1])] for x in (A, B, C)]}
@@ -1037,7 +1212,10 @@ def run(ck):
                'restricted to the field of view; (C) %d rotations x %d translations = %d poses: views per pose, '
                'forward/inverse on %d points, ALL %d ordered pose pairs, all triples of a %d-pose sub-set; (D) solver '
                'projection for %d bs rotations x %d bs positions x %d deck positions x %d cf rotations x 4 sensors; '
-               '(E) IPPE for %d deck positions x %d rotations. distinct = distinct grid points per part'
+               '(E) IPPE for %d deck positions x %d rotations; (F) views of the 24 exact cube rotations, their 576 products and '
+               'exact quaternions with zero scalar part; (G) every sequence of up to 3 (thorough 4) uses of one Pose object '
+               'out of {forward, inverse, compose, inverse-compose, views, scale x2, scale x0.5, copy.copy}, laws '
+               're-checked after every step. distinct = distinct grid points per part'
                % (len(hs), len(vs), 5 if quick else 1, len(a12), len(a12), len(rots), len(TRANSLATIONS), len(poses),
                   len(POINTS), len(poses) ** 2, len(subset), len(rots), len(BS_POSITIONS), len(fronts), len(rots),
                   len(fronts), len(rots)))
@@ -1056,7 +1234,12 @@ def run(ck):
     jobs = [('directions', (c, vs)) for c in _chunks(hs, 16)]
     jobs += [('v2', (c, a12)) for c in _chunks(a12, 8)]
     jobs += [('views', (c, TRANSLATIONS)) for c in _chunks(rots, 8)]
-    jobs += [('defaults', None)]
+    jobs += [('defaults', None), ('exact', None)]
+    hdepth = 3 if quick else 4
+    jobs += [('history', (hdepth, c, 8)) for c in range(8)]
+    ck.note('pose_histories', {'operations': list(HIST_OPS), 'depth': hdepth, 'sequences': len(history_sequences(hdepth)),
+                               'poses': len(HIST_POSES)})
+    ck.note('exact_rotations', {'cube_group_matrices': 24, 'matrix_products': 576, 'quaternions': len(EXACT_QUATS)})
     jobs += [('params', (c, TRANSLATIONS)) for c in _chunks(rots, 4)]
     jobs += [('pairs', (c, poses, pair_points)) for c in _chunks(poses, 32 if quick else 64)]
     jobs += [('triples', (c, subset)) for c in _chunks(subset, 16)]
@@ -1085,6 +1268,17 @@ def replay(ck, data):
         check_views(p, tup('rv'), tup('t'))
     elif part == 'defaults':
         p = part_defaults(None)
+    elif part == 'exact':
+        src = data['src']
+        if data['how'] == 'product':
+            src = (np.array(src[0]), np.array(src[1]))
+        elif data['how'] == 'matrix':
+            src = np.array(src)
+        else:
+            src = tuple(src)
+        check_exact(p, data['how'], src, tup('t'))
+    elif part == 'history':
+        check_history(p, tup('rv'), tup('t'), tuple(data['ops']))
     elif part == 'single':
         check_single(p, tup('rv'), tup('t'), [tup('x')])
     elif part == 'pair':
